@@ -243,6 +243,14 @@ def check(ctx):
                 if m:
                     return {P("lhs_value"): "L", P("rhs_value"): "R", P("fill_value"): "F"}.get(t[3])
                 return ev_(t[1], inL, inR)
+            if t[0] == "call" and t[1] == ("global", "numpy.where") and len(t[2]) == 3:
+                # vector[mask] = value reaches the rule as numpy.where(mask, value, vector)
+                m = evmask(t[2][0], inL, inR)
+                if m is None:
+                    return None
+                if m:
+                    return {P("lhs_value"): "L", P("rhs_value"): "R", P("fill_value"): "F"}.get(t[2][1], ev_(t[2][1], inL, inR))
+                return ev_(t[2][2], inL, inR)
             if t[0] in ("phi", "ifexp"):
                 a_, b_ = ev_(t[2], inL, inR), ev_(t[3], inL, inR)
                 c_ = t[1]
